@@ -202,10 +202,12 @@ def check(ctx):
         fn = ctx.need_fn(D, p, "R2")
         if fn is None:
             continue
-        defs = fn.defs(0)
+        feasible = fn.reach([0])          # a `match None { Some(..) => .., None => .. }` left by a cfg-gated helper has one live arm
+        defs = [d for d in fn.defs(0) if d[0] in feasible]
         if want == "None":
-            ok = bool(defs) and all(d[1] != "term" and d[2]["k"] == "assign" and d[2]["rv"]["k"] == "agg"
-                                    and d[2]["rv"].get("variant") == "None" for d in defs)
+            ok = bool(defs) and all((d[1] != "term" and d[2]["k"] == "assign" and d[2]["rv"]["k"] == "agg" and d[2]["rv"].get("variant") == "None")
+                                    or (d[1] == "term" and re.search(r"option::Option<T> as core::ops::try_trait::FromResidual<.*>>::from_residual$", d[2]["callee"]))
+                                    for d in defs)
         else:
             ok = bool(defs) and all(d[1] == "term" and re.search(r"alloc::vec::Vec::<T>::new$", d[2]["callee"]) for d in defs)
         ctx.check(ok, "R2", p, fn.span, "%s returns the constant %s in the disabled build" % (p.rsplit("::", 1)[1], want),
